@@ -36,7 +36,9 @@ NAMES = ['candidate', 'confirmed-commit', 'validate', 'url', 'xpath', 'startup',
          'rollback-on-error', 'notification', 'interleave', 'with-defaults', 'x', '', 'base', 'capability', 'Ünï']
 VERS = ['1.0', '1.1', '2', '', '1.0:extra', 'v']
 PARAMS = ['', '?scheme=http,ftp,file', '?basic-mode=explicit&also-supported=report-all,trim', '?k', '?k=v=w', '?', '?&&',
-          '?a=1&a=2', '?a=1?b=2', '?module=m&revision=2020-01-01', '?=', '?k=', '?=v']
+          '?a=1&a=2', '?a=1?b=2', '?module=m&revision=2020-01-01', '?=', '?k=', '?=v',
+          # a malformed item FOLLOWED by well-formed ones (each item stands alone)
+          '?flag&b=2', '?a=1&&b=2', '?k=v=w&c=3', '?&x=1', '?basic-mode=explicit&&also-supported=report-all,trim', '?=&z=26']
 LOOKALIKE = ['urn:ietf:params:foo:netconf:capability:a:b', 'http://example.com/netconf:base:1.0',
              'urn:ietf:params:xml:ns:yang:ietf-netconf-monitoring', 'urn:ietf:params:netconfx:capability:c:1.0',
              'urn:ietf:paramsX:netconf:capability:c:1.0', 'urn:ietf:params:xml:netconf:capability:c:1.0:d:e:f',
@@ -82,6 +84,10 @@ def gen_case(rng):
     uris = [gen_uri(rng) for _ in range(n)]
     if uris and rng.random() < 0.15:
         uris.append(rng.choice(uris))          # duplicate (dict overwrite)
+    if uris and rng.random() < 0.2:
+        # two advertised URIs that differ ONLY in their query part (two revisions of one YANG module): two capabilities
+        base = rng.choice(uris).split('?')[0]
+        uris.insert(rng.randint(0, len(uris)), base + rng.choice(['?module=m&revision=2019-01-01', '?revision=2021-06-01', '?x=1', '']))
     r = rng.random()
     cand = set()
     for u in uris:
